@@ -166,6 +166,9 @@ func (in *Interp) builtin(fr *frame, name string, c *ast.CallExpr) Val {
 			if c0, ok := ln.ConstI(); !ok || c0 != 0 {
 				s.Elem = in.zeroOf(u.Elem())
 			}
+			if isIntType(u.Elem()) && typInfoOf(u.Elem()).bits == 8 {
+				s.made = true
+			}
 			return s
 		case *types.Map:
 			return &MapV{Lit: map[string]Val{}, T: t}
@@ -697,6 +700,21 @@ func (in *Interp) binaryModel(fr *frame, typ, name string, args []Val, c *ast.Ca
 		}
 		return Unknown{"binary." + name}, true
 	case "PutUint16", "PutUint32", "PutUint64":
+		// positional big-endian write into a made buffer: must be sequential; the buffer becomes a writer
+		w := map[string]int64{"PutUint16": 16, "PutUint32": 32, "PutUint64": 64}[name]
+		if v, ok := args[0].(*SliceV); ok && v.parent != nil && v.parent.made {
+			buf := v.parent
+			if buf.bytesOf == nil {
+				buf.bytesOf = in.newStream(true, "buf")
+				buf.wpos = cI(0)
+			}
+			if v.viewOff.String() != buf.wpos.String() {
+				bail("positional write at offset %s while %s bytes have been written (not sequential)", v.viewOff, buf.wpos)
+			}
+			buf.bytesOf.T.add(in, Item{Kind: "int", W: cI(w), V: args[1], Pos: c.Pos()})
+			buf.wpos = in.mkBin("+", buf.wpos, in.mkBin("*", cI(w/8), in.loopMul(0), typInfo{64, true}), typInfo{64, true})
+			return nil, true
+		}
 		return nil, true
 	case "Write":
 		// binary.Write(w, order, value)
@@ -1015,6 +1033,20 @@ func (in *Interp) padToByte(t *Trace) int {
 			continue
 		}
 		if v%8 != 0 {
+			// the position depends on a small count: enumerate it
+			var segs []Seg
+			for _, f := range p.F[k] {
+				atomsOf(f, &segs)
+			}
+			for _, sg := range segs {
+				if !sg.A.Env && sg.N <= 6 {
+					var cands []uint64
+					for x := uint64(0); x < 1<<uint(sg.N); x++ {
+						cands = append(cands, x)
+					}
+					panic(need{atom: sg.A, lo: sg.Lo, n: sg.N, cands: cands, reason: "byte alignment depends on " + sg.String()})
+				}
+			}
 			bail("flush at a bit position that is not known modulo 8: %s", t.BitPos)
 		}
 	}
@@ -1125,6 +1157,8 @@ func (in *Interp) cursorViewAsInt(v *SliceV, w int) Val {
 	it := &t.Items[v.viewIdx]
 	it.Kind, it.W, it.V = "int", cI(int64(w)), in.rawAtom(name)
 	t.recomputeBits(in)
+	// the view may have been an open-ended slice (data[pos:]): only w/8 bytes are consumed
+	v.parent.cur.pos = in.mkBin("+", v.viewOff, in.mkBin("*", cI(int64(w/8)), in.loopMul(0), typInfo{64, true}), typInfo{64, true})
 	key := v.viewOff.String() + "+" + fmt.Sprint(w/8)
 	v.parent.cur.byOff[key] = a
 	return a
